@@ -95,6 +95,9 @@ def dec_index(e):
         return np.array(e["v"])
     if k == "r":        # positions as a range
         return range(*e["v"])
+    if k == "dm":       # a boolean mask / a list of positions held in a one-dimensional DimArray named e["d"]
+        from dimarray import DimArray
+        return DimArray(np.array(e["v"]), dims=[e["d"]])
     if k == "ml":       # a boolean mask as a plain list
         return [bool(x) for x in e["v"]]
     if k == "m":
